@@ -1,7 +1,7 @@
 """C11 - BLAKE and BLAKE2 digests equal their specifications for all inputs and parameters."""
 import hashlib, itertools
 from mc.engine import Sub, InternalError
-from mc.common import ramp, expander
+from mc.common import ramp, expander, zero_words
 from mc.refs import blake as RB
 
 SIZES = (224, 256, 384, 512)
@@ -89,6 +89,9 @@ def run_bytes(ctx, pt):
     m = ramp(ln, 7, ln)
     r = ctx.attempt(lambda: Blake(n)(m))
     ctx.eq('C11/blake%d/byte-digest' % n, r, ('ok', RB.blake(n, m)))
+    if ln % 16 in (0, 1):
+        zm = zero_words(ln, 8 if n > 256 else 4, 128 if n > 256 else 64)
+        ctx.eq('C11/blake%d/byte-digest/zero-words' % n, ctx.attempt(lambda: Blake(n)(zm)), ('ok', RB.blake(n, zm)))
     if r[0] == 'ok':
         ctx.eq('C11/blake%d/digest-length' % n, len(r[1]), n // 8)
 
@@ -339,7 +342,7 @@ def pts_b2len(tier):
 def run_b2len(ctx, pt):
     v, ln = pt
     bl = 128 if v == 'b' else 64
-    for m in (ramp(ln, 11, ln), expander(ln, 5)):
+    for m in (ramp(ln, 11, ln), expander(ln, 5)) + ((zero_words(ln, 8 if v == 'b' else 4, bl),) if ln % 16 in (0, 1) else ()):
         r = ctx.attempt(lambda: mk2(v)(m))
         cls = 'one-block' if ln <= bl else ('whole-blocks' if ln % bl == 0 else 'multi-block')
         ctx.eq('C11/blake2%s/%s' % (v, cls), r, ('ok', h2(v)(m).digest()))
